@@ -204,6 +204,8 @@ func Main(args []string) int {
 		add("head+filler", h+strings.Repeat("~", 40))
 		add("head+spaces", h+strings.Repeat(" ", 40))
 	}
+	add("empty", "")
+	add("newline-only", "\n")
 	// (b) every field x every value class, single; pairs over a reduced class set
 	vals := valueClasses(true)
 	for f := 0; f < 9; f++ {
